@@ -22,7 +22,7 @@ func init() {
 	core.Register(&core.Simple{
 		Id: "C02", Lvl: "exploration", Quick: 420, Thorough: 14000, PerBatch: 140, Width: 140, Timeout: 2400,
 		RuleText: "each case builds one well-formed client session as a byte stream — control (handshake + login + 8-20 pipelined requests of ~25 kinds, payloads from empty to 60 KiB), download, upload (with/without resource fork), folder download (with an action script) or folder upload — and delivers the same bytes to identical fresh servers under a baseline (one segment) and 6-8 other partitions: 1-byte, fixed k in {2,3,5,11,12,13,16,20,22,23}, a single cut at position p (p sweeps 1..64 across the cases of a run), cuts at -1/0/+1 around a structural boundary (handshake end, transaction and field headers, preamble, FILP/fork/item headers), and seeded random partitions; outcomes compared: normalised multiset of transactions written back (server-chosen ids, reference numbers, chat ids, dates and password hashes blanked), the observer's inbox, a snapshot of config dir + file root, and for transfers the bytes written and files created. distinct = (session kind, partition class); non-trivial = every variant",
-		Case: runCase,
+		Case:     runCase,
 	})
 }
 
@@ -203,7 +203,7 @@ func runControl(stream []byte, segs [][]byte) (outcome, error) {
 type xferSession struct {
 	kind       string
 	request    func(cl *refclient.Client) ([]byte, error) // control request, returns the reference number
-	stream     func(ref []byte) []byte                  // client bytes on the transfer connection
+	stream     func(ref []byte) []byte                    // client bytes on the transfer connection
 	boundaries []int
 }
 
@@ -420,10 +420,9 @@ func runCase(c *core.Case) {
 			c.Unsure("baseline: %v", err)
 			return
 		}
-		if base.note != "" || len(base.frames) < 3 {
-			c.Unsure("baseline session not served: %s (%d frames)", base.note, len(base.frames))
-			return
-		}
+		// The one-segment delivery is only one partition among the others: if it is the one that is not served while
+		// another partition of the same bytes is, that is a difference like any other.
+		baseServed := base.note == "" && len(base.frames) >= 3
 		var classes []string
 		for _, p := range partitions(c, func(int) []int { return sess.boundaries }) {
 			segs := p.cut(sess.stream)
@@ -434,10 +433,18 @@ func runCase(c *core.Case) {
 			}
 			c.Count("variants", 1)
 			c.Count("segments_delivered", len(segs))
-			if d := diffOutcome(base, v); d != "" {
+			if !baseServed {
+				if v.note == "" && len(v.frames) >= 3 {
+					c.Fail("C02/control/one-segment", "control session (%d bytes, requests %v) is served when delivered as %s (%d segments, %d frames written back) but not when delivered in one segment: %s (%d frames)", len(sess.stream), sess.desc, p.desc, len(segs), len(v.frames), base.note, len(base.frames))
+				}
+			} else if d := diffOutcome(base, v); d != "" {
 				c.Fail("C02/control/"+p.class, "control session (%d bytes, requests %v) delivered as %s (%d segments): %s", len(sess.stream), sess.desc, p.desc, len(segs), d)
 			}
 			classes = append(classes, p.class)
+		}
+		if !baseServed && !c.Failed() {
+			c.Unsure("session not served under any partition: %s (%d frames)", base.note, len(base.frames))
+			return
 		}
 		c.Describe("control/"+fmt.Sprint(c.Index%10), map[string]any{"session": "control", "stream_bytes": len(sess.stream), "requests": sess.desc, "partition_classes": classes})
 		return
@@ -448,10 +455,7 @@ func runCase(c *core.Case) {
 		c.Unsure("baseline %s: %v", kind, err)
 		return
 	}
-	if strings.Contains(base.note, "handler error") {
-		c.Unsure("baseline %s not served: %s", kind, base.note)
-		return
-	}
+	baseServed := !strings.Contains(base.note, "handler error")
 	var classes []string
 	for _, p := range partitions(c, func(n int) []int {
 		var bs []int
@@ -473,10 +477,18 @@ func runCase(c *core.Case) {
 		}
 		c.Count("variants", 1)
 		c.Count("segments_delivered", nseg)
-		if d := diffOutcome(base, v); d != "" {
+		if !baseServed {
+			if !strings.Contains(v.note, "handler error") {
+				c.Fail("C02/"+kind+"/one-segment", "%s session is served when delivered as %s (%d segments) but not when delivered in one segment: %s", kind, p.desc, nseg, base.note)
+			}
+		} else if d := diffOutcome(base, v); d != "" {
 			c.Fail("C02/"+kind+"/"+p.class, "%s session delivered as %s (%d segments): %s", kind, p.desc, nseg, d)
 		}
 		classes = append(classes, p.class)
+	}
+	if !baseServed && !c.Failed() {
+		c.Unsure("%s session not served under any partition: %s", kind, base.note)
+		return
 	}
 	c.Describe(kind+"/"+fmt.Sprint(c.Index%10), map[string]any{"session": kind, "partition_classes": classes, "baseline_bytes_written_by_server": len(base.raw)})
 	_ = filepath.Join
